@@ -116,13 +116,13 @@ PROPS = {
         "assumptions": VM_ASSUME + ["the theorems of Props/C17 are about the EVM interpreter (vm/); contracts deployed with IsEWASM run on an engine that has no gas accounting at all (recorded: C17-ewasm_unmetered)",
                                     "what is charged depends on parameters (the gas rate) and meters that must be read from the store at every execution: the regenerated inventory of in-memory state in keepers and packages (C10.no_unreviewed_sites) is an obligation of this property as well"],
     },
-    "C01": dict(BANKVM, lean=["Shentu.Props.C01", "Shentu.Props.C01s", "Shentu.Props.C01vm", "Shentu.Props.C01run", "Shentu.Props.C01m"], drivers=["chaindriver", "vmdriver"],
+    "C01": dict(BANKVM, lean=["Shentu.Props.C01", "Shentu.Props.C01s", "Shentu.Props.C01vm", "Shentu.Props.C01run", "Shentu.Props.C01m", "Shentu.Props.C01tx", "Shentu.Props.C01txLib"], drivers=["chaindriver", "vmdriver"],
                 engines=[chain("bankvm", 96, 960, ops=100), chain("gov", 48, 480, ops=100), chain("oracle", 48, 480), chain("shield", 32, 320, ops=120), chain("staking", 32, 320, ops=100),
                          vm("calls", 16000, 160000), vm("create", 4800, 48000), EXPORT, MINT],
                 assumptions=BANKVM["assumptions"] + [MINT_ASSUME, "arbitrary contract programs (value calls, SELFDESTRUCT to any beneficiary, failing frames) are covered by the VM engine: the accounts of the interpreter's cache hold the same sum before and after every generated call tree; the write-back of that cache to the bank is covered by the chain engine's library programs"]),
-    "C18": dict(BANKVM, lean=["Shentu.Props.C18", "Shentu.Props.C18vm"], drivers=["chaindriver", "vmdriver"],
+    "C18": dict(BANKVM, lean=["Shentu.Props.C18", "Shentu.Props.C18vm", "Shentu.Props.C01tx"], drivers=["chaindriver", "vmdriver"],
                 engines=[chain("bankvm", 160, 1600, ops=100), vm("calls", 16000, 320000), vm("create", 4800, 48000), EXPORT]),
-    "C19": dict(BANKVM, lean=["Shentu.Props.C19", "Shentu.Props.C19H"], engines=[chain("bankvm", 160, 1600, ops=100), chain("payout", 48, 480, ops=120, tops=200), EXPORT],
+    "C19": dict(BANKVM, lean=["Shentu.Props.C19", "Shentu.Props.C19H", "Shentu.Props.C01tx"], engines=[chain("bankvm", 160, 1600, ops=100), chain("payout", 48, 480, ops=120, tops=200), EXPORT],
                 assumptions=BANKVM["assumptions"] + ["the one path outside the bank and cvm modules that touches the lock — a shield claim paid out of the stake of an account with locked coins — is exercised by the engine 'payout' on providers turned into ManualVestingAccounts in a discarded cache context (an account with locked coins may delegate them and deposit collateral)"]),
     "C11": dict(GOV, lean=["Shentu.Props.C11", "Shentu.Props.C11H", "Shentu.Props.ShieldTie"]),
     "C12": dict(GOV, lean=["Shentu.Props.C12", "Shentu.Props.C12T"], engines=GOV["engines"] + [chain("shield", 48, 480, ops=160)],
